@@ -27,28 +27,39 @@ def id_maps(n, scheme):
     return [mk(i) for i in range(n)], {mk(i): i + 1 for i in range(n)}
 
 
+RECENT = []          # the last few collections indexed in this run (a violation may depend on indexes built earlier: they go into the replay)
+
+
+def remember(boxes, a, b, scheme):
+    RECENT.append({"boxes": [list(bx) for bx in boxes], "map": [a, b], "ids": scheme})
+    del RECENT[:-4]
+
+
 def run_instance(rt, boxes, hitsv, qn, a, b, stride, phase):
     """Build the real index over `boxes` (ids 1..n) and compare every query with the abstract mask."""
     f = lambda x: a * x + b  # noqa: E731
     n = len(boxes)
     ids, back = id_maps(n, phase)
+    remember(boxes, a, b, phase % len(ID_SCHEMES))
     try:
         with vlib.time_limit(5.0):
             idx = rt.Index([(ids[i], (f(bx[0]), f(bx[1]), f(bx[2]), f(bx[3]))) for i, bx in enumerate(boxes)])
     except (RecursionError, vlib.CallTimeout) as ex:
-        return [("build.terminates", None, type(ex).__name__, None)], 0
+        return [("build.terminates", None, type(ex).__name__, None, [])], 0
     bad = []
     nq = 0
+    prior = []
     for c in range(phase % stride, len(hitsv), stride):
         m = hitsv[c]
         if m < 0:
             continue
         q = q_of(c, qn)
+        prior.append(list(q))
         try:
             with vlib.time_limit(5.0):
                 got = idx.intersection((f(q[0]), f(q[1]), f(q[2]), f(q[3])))
         except vlib.CallTimeout:
-            bad.append(("query.terminates", None, "no answer within 5 s", list(q)))
+            bad.append(("query.terminates", None, "no answer within 5 s", list(q), prior[-300:-1]))
             break
         nq += 1
         want = {i + 1 for i in range(n) if (m >> i) & 1}
@@ -59,7 +70,7 @@ def run_instance(rt, boxes, hitsv, qn, a, b, stride, phase):
             pass
         got = res
         if set(got) != want:
-            bad.append(("query.missed" if want - set(got) else "query.extra", sorted(want), sorted(got), list(q)))
+            bad.append(("query.missed" if want - set(got) else "query.extra", sorted(want), sorted(got), list(q), prior[-300:-1]))
             if len(bad) > 3:
                 break
     return bad, nq
@@ -88,7 +99,8 @@ def record(rt, rng, ncoll, nq):
         cf = float if asf else (lambda z: z)
         scheme = rng.randrange(len(ID_SCHEMES))
         ids, back = id_maps(len(boxes), scheme)
-        evs.append({"ev": "build", "boxes": boxes, "asfloat": asf, "ids": scheme})
+        evs.append({"ev": "build", "boxes": boxes, "asfloat": asf, "ids": scheme, "earlier": [dict(r) for r in RECENT]})
+        remember(boxes, 1.0 if asf else 1, 0, scheme)
         try:
             with vlib.time_limit(10.0):
                 idx = rt.Index([(ids[i], tuple(cf(v) for v in bx)) for i, bx in enumerate(boxes)])
@@ -127,7 +139,7 @@ def validate(ctx, name, evs):
     tf = os.path.join(wd, "trace.ndjson")
     with open(tf, "w") as fh:
         for e in evs:
-            fh.write(json.dumps(e) + "\n")
+            fh.write(json.dumps({k: v for k, v in e.items() if k != "earlier"}) + "\n")
     dump = os.path.join(wd, "states")
     vlib.tlc(wd, "RTreeTrace", "RTreeTrace.cfg", workers=1, dump=dump, env={"TRACE_FILE": tf})
     verdicts = {}
@@ -167,9 +179,9 @@ def run(ctx):
                 bad, nq = run_instance(rt, boxes, hitsv, qn, a, b, stride, ninst + ctx.seed)
                 ctx.evaluations += nq
                 ctx.distinct.add((ci, ninst, mi))
-                for clause, want, got, q in bad:
+                for clause, want, got, q, prior in bad:
                     degenerate = any(bx[0] == bx[2] or bx[1] == bx[3] for bx in boxes)
-                    ctx.violation(clause, {"mode": "G", "boxes": boxes, "q": q, "map": [a, b], "ids": (ninst + ctx.seed) % len(ID_SCHEMES)}, want, got,
+                    ctx.violation(clause, {"mode": "G", "boxes": boxes, "q": q, "map": [a, b], "ids": (ninst + ctx.seed) % len(ID_SCHEMES), "prior_q": prior, "earlier_indexes": RECENT[:-1]}, want, got,
                                   input_class="degenerate-box" if degenerate else None)
             if ninst % 2503 == 1:
                 ctx.sample({"mode": "G", "boxes": boxes, "query_masks_head": hitsv[:12]})
@@ -182,16 +194,19 @@ def run(ctx):
     evs = record(rt, rng, ncoll if not ctx.enough() else 20, nq)
     verdicts = validate(ctx, "v", evs)
     cur = None
+    cur_qs = []
     for e, v in zip(evs, verdicts):
         if e["ev"] == "build":
             cur = e
+            cur_qs = []
             continue
+        cur_qs.append(e["q"])
         ctx.evaluations += 1
         if v == "skip":
             ctx.skipped += 1
         elif v != "ok":
             degenerate = any(bx[0] == bx[2] or bx[1] == bx[3] for bx in cur["boxes"])
-            ctx.violation(v, {"mode": "V", "boxes": cur["boxes"], "asfloat": cur["asfloat"], "ids": cur["ids"], "q": e["q"]}, None, e["res"],
+            ctx.violation(v, {"mode": "V", "boxes": cur["boxes"], "asfloat": cur["asfloat"], "ids": cur["ids"], "q": e["q"], "prior_q": cur_qs[-300:-1], "earlier_indexes": cur.get("earlier", [])}, None, e["res"],
                           input_class="degenerate-box" if degenerate else None)
     ctx.distinct.update(("V", i) for i in range(ncoll))
     ctx.traces += ncoll
@@ -218,9 +233,19 @@ def replay(rec):
         cf = lambda x: a * x + b  # noqa: E731
     else:
         cf = float if c.get("asfloat") else (lambda z: z)
+    keep = []
+    for old in c.get("earlier_indexes", []):             # indexes that existed before this one (state shared between Index objects would show here)
+        oa, ob = old["map"]
+        oids, _b = id_maps(len(old["boxes"]), old["ids"])
+        keep.append(rt.Index([(oids[i], tuple(oa * v + ob for v in bx)) for i, bx in enumerate(old["boxes"])]))
     ids, back = id_maps(len(c["boxes"]), c.get("ids", 0))
     idx = rt.Index([(ids[i], tuple(cf(v) for v in bx)) for i, bx in enumerate(c["boxes"])])
     q = c["q"]
+    for pq in c.get("prior_q", []):                      # the queries made on this index before the failing one, results emptied as the check does
+        try:
+            idx.intersection(tuple(cf(v) for v in pq)).clear()
+        except Exception:  # pylint: disable=broad-except
+            pass
     got = sorted(back.get(g, -1) for g in idx.intersection(tuple(cf(v) for v in q)))
     ctx = vlib.Ctx("C14", "quick", 0, LEVEL, fresh=False)
     v = validate(ctx, "replay", [{"ev": "build", "boxes": c["boxes"], "asfloat": False},
